@@ -56,6 +56,8 @@ func implEtext(t []string) string {
 		return "t:" + thx(b)
 	}
 	x := e.zero()
+	// the destination holds whatever the application had there before: the parsed value replaces it
+	reflect.ValueOf(x).Elem().SetUint(0xA5A5A5A5A5A5A5A5)
 	if err := x.UnmarshalText(unhx(t[3])); err != nil {
 		return "err"
 	}
